@@ -112,9 +112,14 @@ def run(ctx):
         sizes_with_ignored = dict(sizes)
         sizes_with_ignored[ignored] = SIZE
         genome = bnp.Genome.from_dict(sizes_with_ignored, filter_function=ignore_underscores)
+        ignored_names = {ignored}
+        if case.get("extra_ignored"):
+            # a second way of ignoring contigs: names added afterwards; the contigs ignored by the filter must stay ignored
+            genome = genome.with_ignored_added(["chrM"])
+            ignored_names.add("chrM")
         rows = make_rows(groups)
         included = [r for r in rows if r[0] in names]
-        unknown = [g for g in groups if g not in names and g != ignored]
+        unknown = [g for g in groups if g not in names and g not in ignored_names]
         order = [g for g in groups if g in names]
         in_order = order == sorted(order, key=names.index)
         valid = not unknown and in_order
@@ -123,7 +128,7 @@ def run(ctx):
             # first group that makes the sequence incompatible, and whether the last genome contig's data came before it
             seen_inc, off = [], None
             for gi_, g in enumerate(groups):
-                if g == ignored:
+                if g in ignored_names:
                     continue
                 if g not in names:
                     off, kind = gi_, "unknown-contig"
@@ -181,9 +186,9 @@ def run(ctx):
             judge(cname, case, out, out[1] if out[0] == "ok" else None, included, valid, why)
 
         # ---- MultiStream (no ignored names there: every name must be in the contig order) ----
-        ms_rows = [r for r in rows if r[0] != ignored]
-        ms_unknown = [g for g in groups if g not in names and g != ignored]
-        ms_groups = [g for g in groups if g != ignored]
+        ms_rows = [r for r in rows if r[0] not in ignored_names]
+        ms_unknown = [g for g in groups if g not in names and g not in ignored_names]
+        ms_groups = [g for g in groups if g not in ignored_names]
         if ms_rows:
             ms_valid = not ms_unknown and in_order
             bounds = [0] + [c for c in cuts if c < len(ms_rows)] + [len(ms_rows)]
@@ -272,13 +277,19 @@ def run(ctx):
         for k in range(1, len(pool) + 1):
             for seq in itertools.permutations(pool, k):
                 cases.append((names, list(seq)))
+    extra = []
+    for names, groups in cases:
+        if len(groups) <= 3 and "chrX" not in groups:
+            for pos in range(len(groups) + 1):
+                extra.append((names, groups[:pos] + ["chrM"] + groups[pos:], True))
+    cases = [(n_, g_, False) for n_, g_ in cases] + extra
     gen = random.Random(ctx.seed + 12)
-    for idx, (names, groups) in enumerate(cases):
+    for idx, (names, groups, extra_ignored) in enumerate(cases):
         if idx % ctx.nshards != ctx.shard:
             continue
         n_entries = len(make_rows(groups))
         for ci, cuts in enumerate(chunkings(n_entries, gen, ctx.pick(1, 4))):
-            ctx.run_case(one, {"genome": names, "groups": groups, "cuts": list(cuts), "similarity": ci == 0, "geometry": ci < 2})
+            ctx.run_case(one, {"genome": names, "groups": groups, "cuts": list(cuts), "similarity": ci == 0, "geometry": ci < 2, "extra_ignored": extra_ignored})
     ctx.sample({"genome": ["chr1", "chr2", "chr3"], "groups": ["chr3", "chr2"], "cuts": [1], "meaning": "entries fed in groups chr3 then chr2 as 2 chunks; every consumer must raise or hand back all entries"})
     ctx.floor("completed_compatible", ctx.pick(200, 2000))
     ctx.floor("raised_on_incompatible", ctx.pick(200, 2000))
